@@ -159,7 +159,10 @@ func kRevisit(args []string) (string, string) {
 			tag = "segmented"
 		}
 		line += " mergeerr=" + tag
-		if isHttp && httpOK(origKind == "httpResp", head) && orig.WarcHeader().Has(gowarc.ContentLength) && tag != "segmented" {
+		// an original whose own Content-Length is not a number the library can read (built under spec=ignore from a hostile
+		// value) is refused explicitly: that is not a failure to reproduce a record
+		_, clErr := strconv.ParseInt(orig.WarcHeader().Get(gowarc.ContentLength), 10, 64)
+		if isHttp && httpOK(origKind == "httpResp", head) && orig.WarcHeader().Has(gowarc.ContentLength) && tag != "segmented" && !(tag == "badLength" && clErr != nil) {
 			viol("c20-merge-failed " + sanitize(merr.Error()))
 		}
 	} else {
